@@ -6,6 +6,7 @@ mod core;
 mod pingsched;
 mod sched;
 mod sig;
+mod timing;
 mod tok;
 mod transient;
 
@@ -17,6 +18,7 @@ fn main() {
         "pingsched" => pingsched::run(),
         "chansched" => chansched::run(),
         "sig" => sig::run(),
+        "timing" => timing::run(),
         "core" => core::run(&args[2..]),
         "transient" => transient::run(),
         _ => {
